@@ -151,7 +151,7 @@ func (s *Swarm) getConn(ctx context.Context, addr Addr) (*Conn, error) {
 	}
 
 	// try to dial
-	raddr := addr.IP.String() + ":" + strconv.Itoa(int(addr.Port))
+	raddr := net.JoinHostPort(addr.IP.String(), strconv.Itoa(int(addr.Port)))
 	netConn, err := net.Dial("tcp", raddr)
 	if err != nil {
 		return nil, err
